@@ -23,13 +23,16 @@ CLAIMED.update({
         category="proof",
         text="Theorems for every executor that is a function of (node, arguments), every acyclic gate-free graph with unique outputs and "
              "every input: the dataflow equations (Sol: argument precedence upstream output > run-time > bound > default; unsatisfiable nodes "
-             "contribute nothing) have exactly one solution, and every COMPLETED run of either runner ends in it; a node has run iff its "
-             "inputs can be satisfied. Proved through an invariant over all reachable states (versions, execution records, provenance). "
-             "Tied to /repo by runs against the dependency-order evaluator SpecDenote.denote and the engine model.",
+             "contribute nothing) have exactly one solution; every COMPLETED run of either runner ends in it; a node has run iff its inputs "
+             "can be satisfied; and the run TERMINATES: after depth+1 supersteps nothing is ready (settled-nodes invariant by induction on rank), "
+             "so with max_iterations >= depth+1 it never ends in InfiniteLoopError and, when no node function raises, it completes in that "
+             "solution (total correctness). Tied to /repo by runs against the dependency-order evaluator SpecDenote.denote and the engine model.",
         design_ref="DESIGN.md section 5 C01",
-        note="partial: termination of a DAG within max_iterations (hence 'exactly once') is not proved; graphs with wait_for are outside the "
-             "theorem (known finding F-j shows the full statement is false there). Model: Engine.v; executor contract: WF in C01Proofs.v.",
-        technique="Coq proof (invariant over reachable states + uniqueness of the dataflow fix-point by induction on rank) + spec oracle",
+        note="'exactly once' (one invocation per satisfiable node when no upstream-fed parameter has a default) is decided by the oracle's call "
+             "log, not proved; graphs with wait_for are outside the theorems (known finding F-j shows the full statement is false there). "
+             "Model: Engine.v; executor contract: WF in C01Proofs.v; termination: C01Term.v.",
+        technique="Coq proof (invariant over reachable states, uniqueness of the dataflow fix-point by induction on rank, termination by a "
+                  "settled-nodes invariant) + spec oracle",
     ),
     "C02": dict(
         category="proof",
